@@ -434,6 +434,7 @@ Inductive stage :=
 | SListOf (vs : list val)
 | SMergeWithX (d : kvs) (lm im : option lam2) (maxl : Z)
 | SSelf (op : selfop)
+| SAssertAny                                    (* .assert($.any()): memorizes an iterator, looks at its first element *)
 | SGroupByAggP (k : lam) (v : option lam) (agg : list stage) (term : nat).   (* aggregator: $ + pipeline + count / sum(0) / first(null) / toList *)
 
 (* yaqltypes.Iterable(): tuples, lists, sets, iterators, OrderingIterable; not dicts *)
@@ -876,6 +877,18 @@ Definition apply_stage (fuel : nat) (s : st) (sg : stage) (r : rv) : rr :=
       | RDict _ d => match merge_dicts 6 d (dict_of_items e) lm im maxl with
                      | Ok x => (s, Ok (RDict true x)) | Err er => (s, Err er) | _ => (s, Unsupported) end
       | _ => no_match s
+      end
+  | SAssertAny =>
+      match r with
+      | RVal (VList _ []) | RSet [] => (s, Err EOther)            (* AssertionError *)
+      | RVal (VList _ _) | RSet _ => (s, Ok r)
+      | _ => with_it s r (fun i =>
+               match next fuel s i with
+               | (s1, Yield v i') => ok_it s1 (Chain (OfList [v]) (Memo i'))
+               | (s1, Done) => (s1, Err EOther)
+               | (s1, Fail e) => (s1, Err e)
+               | (s1, NoFuel) => (s1, OutOfFuel)
+               end)
       end
   | SGroupByAggP k v sgs term =>
       with_list fuel s r (fun s1 l =>
